@@ -156,6 +156,11 @@ def _nearmiss(d, r):
         return ("P", K.add(d[1], step))
     if k == "VEC":
         return ("VEC", K.add(d[1], step))
+    if k == "H" and r.random() < 0.4:
+        c = r.randrange(3)
+        return [("H", d[1], K.mul(d[2], -1)),                                   # same origin, opposite direction
+                ("H", K.add(d[1], K.mul(d[2], r.choice((1, F(1, 2), -1)))), d[2]),   # origin slid along the carrier
+                ("H", K.add(d[1], d[2]), K.mul(d[2], -1))][c]                       # overlapping, opposite sense
     if k in ("L", "H"):
         if r.random() < 0.5:
             # displaced support point (off the carrier)
@@ -168,7 +173,18 @@ def _nearmiss(d, r):
             return None
         return (k, d[1], nd)
     if k == "S":
-        return ("S", d[1], K.add(d[2], step)) if K.add(d[2], step) != d[1] else None
+        p, q = d[1], d[2]
+        e = K.sub(q, p)
+        c = r.randrange(8)
+        cand = [("S", p, K.add(q, step)),                      # end displaced
+                ("S", K.add(q, step), p),                      # swapped representation, other end displaced
+                ("S", K.add(p, step), q),                      # start displaced
+                ("S", q, K.add(q, step)),                      # chained head-to-tail: a.end == b.start
+                ("S", K.sub(p, step), p),                      # chained: b.end == a.start
+                ("S", q, K.add(q, e)),                         # collinear continuation
+                ("S", p, K.add(p, K.mul(e, F(1, 2)))),         # sub-segment sharing the start
+                ("S", K.add(p, K.mul(e, F(1, 2))), q)][c]      # sub-segment sharing the end
+        return cand if cand[1] != cand[2] else None
     if k == "PL":
         if r.random() < 0.5:
             if K.dot(step, d[2]) == 0:
@@ -179,12 +195,28 @@ def _nearmiss(d, r):
             return None
         return ("PL", d[1], nn)
     if k == "PG":
-        # move the whole polygon or scale it about a vertex: still a valid convex polygon
+        # move the whole polygon, scale it about a vertex, or pull ONE vertex inwards: still valid convex polygons
+        if r.random() < 0.35:
+            vs = list(d[1])
+            m = len(vs)
+            i = r.randrange(m)
+            chord_mid = K.mul(K.add(vs[(i - 1) % m], vs[(i + 1) % m]), F(1, 2))
+            vs[i] = K.mul(K.add(vs[i], chord_mid), F(1, 2))
+            return ("PG", tuple(vs))
         if r.random() < 0.5:
             return ("PG", tuple(K.add(v, step) for v in d[1]))
         c = d[1][0]
         return ("PG", tuple(K.add(c, K.mul(K.sub(v, c), F(1, 2))) for v in d[1]))
     if k == "PH":
+        if r.random() < 0.35:
+            vs = list(d[1])
+            i = r.randrange(len(vs))
+            rest = [v for j, v in enumerate(vs) if j != i]
+            vs[i] = K.mul(K.add(vs[i], K.centroid(rest)), F(1, 2))       # one vertex pulled towards the others
+            h = K.hull3d(vs)
+            if h is not None and len(h[1]) == len(vs):
+                return h
+            return None
         if r.random() < 0.5:
             from ..desc import translate
             return translate(d, step)
